@@ -101,6 +101,12 @@ Emit == st.lvl = 2 =>
                                                                   LAMBDA m : m.val # bodyOf(k)[i])])
                                 \o [i \in 1..n |-> [kind |-> "cut", at |-> i - 1, val |-> 0]]
                                 \o [i \in 1..n |-> [kind |-> "cutkeep", at |-> i - 1, val |-> 0]]
+                                \* compressed bases: the stored stream damaged behind a recomputed checksum
+                                \o (IF BaseCodec(st.b) = 0 THEN <<>> ELSE
+                                      LET sb == CompressW(BaseCodec(st.b), bodyOf(k))
+                                      IN Flatten([i \in 1..Len(sb) |-> SelectSeq([a \in 1..Len(Alpha) |-> [kind |-> "ssub", at |-> i, val |-> Alpha[a]]],
+                                                                                 LAMBDA m : m.val # sb[i])])
+                                         \o [i \in 1..Len(sb) |-> [kind |-> "scut", at |-> i - 1, val |-> 0]])
                 all == Flatten([j \in 1..Len(pagesK) |-> [i \in 1..Len(mutsOf(pagesK[j])) |-> [k |-> pagesK[j], m |-> mutsOf(pagesK[j])[i]]]])
                 ms == Take(SliceOf(all, 1, IF PerSlice >= Len(all) THEN 1 ELSE (Len(all) \div PerSlice) + 1), PerSlice)
             IN PrintT(ToJson([fam |-> "page", b |-> st.b, k |-> c,
